@@ -55,6 +55,11 @@ func c07Source(data []byte, cs c07Case) *src.Source {
 	}
 	switch cs.Schedule {
 	case "all":
+	case "zn1", "zn7", "zn64", "zn4096":
+		// a polling source: every other Read returns (0, nil), the others deliver up to n bytes
+		var n int
+		fmt.Sscanf(cs.Schedule, "zn%d", &n)
+		s.Sizes(n).ZeroNil(2)
 	case "random":
 		rg := core.NewRNG(int64(cs.RngSeed>>1), "c07sched")
 		s.Random(23, rg.Intn)
@@ -432,6 +437,17 @@ func runC07(r *core.Run) {
 		rg := core.NewRNG(r.Seed, "C07", "extras")
 		for ji, j := range jobs {
 			if len(j.seed.Bytes) > 8192 {
+				// polling sources over the larger files: hundreds to thousands of empty reads in all,
+				// never two in a row
+				for k := 0; k < 3; k++ {
+					cut := j.cuts[rg.Intn(len(j.cuts))]
+					if k == 0 {
+						cut = len(j.seed.Bytes)
+					}
+					for _, l := range loaderNames {
+						extras = append(extras, extraUnit{ji, cut, l, "sched", core.Pick(rg, []string{"zn64", "zn7", "zn4096"})})
+					}
+				}
 				continue
 			}
 			for k := 0; k < 24; k++ {
@@ -446,6 +462,7 @@ func runC07(r *core.Run) {
 					if k%8 == 0 {
 						extras = append(extras, extraUnit{ji, cut, l, "seek", "os.File"}, extraUnit{ji, cut, l, "seek", "os.Pipe"})
 					}
+					extras = append(extras, extraUnit{ji, cut, l, "sched", core.Pick(rg, []string{"zn1", "zn7", "zn64"})})
 					extras = append(extras, extraUnit{ji, cut, l, "drain", fmt.Sprintf("copy@%d", rg.Intn(64))}, extraUnit{ji, cut, l, "bufio", core.Pick(rg, []string{"16", "4096", "65536"})},
 						extraUnit{ji, cut, l, "drain", fmt.Sprintf("zero-reads@%d", core.Pick(rg, []int{1, 5, 4096}))},
 						extraUnit{ji, cut, l, "drain", fmt.Sprintf("bytes-then-read@%d", core.Pick(rg, []int{1, 9, 4500}))})
@@ -510,6 +527,14 @@ func runC07(r *core.Run) {
 				cs.Terminal, cs.ErrKind = core.Pick(rg, []string{"error", "data+error"}), e.arg
 				if e.cut == 0 {
 					cs.Terminal = "error"
+				}
+			} else if e.kind == "sched" {
+				cs.Schedule = e.arg
+				if rg.Intn(3) == 0 {
+					cs.Terminal = core.Pick(rg, []string{"error", "data+eof", "data+error"})
+					if e.cut == 0 {
+						cs.Terminal = "error"
+					}
 				}
 			} else if e.kind == "drain" {
 				cs.Drain = e.arg
